@@ -296,6 +296,9 @@ pub fn run(ctx: &Ctx) -> i32 {
     TOLERATE_ID_REUSE.store(ctx.open("layout.segment_id_reuse"), std::sync::atomic::Ordering::Relaxed);
     TOLERATE_EMPTY_ORPHAN.store(ctx.open("layout.empty_orphan_directory"), std::sync::atomic::Ordering::Relaxed);
     let mut cl = c01::classes(ctx);
+    // only the monitor's own signatures are judged here, so several event types per history are fine although C01
+    // restricts itself to one while C05's partial-drain finding is open
+    cl.single_type = false;
     // C11 has its own finding classes
     cl.excl_flush_steps = ctx.open("crash.step_in_flush");
     cl.excl_compact_steps = ctx.open("crash.step_in_compaction");
